@@ -93,16 +93,24 @@ func runProperty(ctx *Ctx, o *Options, t0 time.Time) int {
 	if s := os.Getenv("VERIF_SEED"); s != "" {
 		seed, _ = strconv.Atoi(s)
 	}
-	var keys []string
+	var keys, boundedKeys []string
+	var trustedRepo []string
 	for k, fc := range sp.Funcs {
-		if fc.Extern || fc.Iface || fc.Trusted {
+		if fc.Extern || fc.Iface {
 			continue
 		}
 		if contractServes(fc, P) {
+			boundedKeys = append(boundedKeys, k)
+			if fc.Trusted {
+				trustedRepo = append(trustedRepo, k)
+				continue
+			}
 			keys = append(keys, k)
 		}
 	}
 	sort.Strings(keys)
+	sort.Strings(boundedKeys)
+	sort.Strings(trustedRepo)
 	evPath := filepath.Join(o.Verif, "evidence", P+".json")
 	os.MkdirAll(filepath.Dir(evPath), 0o755)
 	os.Remove(evPath)
@@ -250,7 +258,7 @@ func runProperty(ctx *Ctx, o *Options, t0 time.Time) int {
 			violations = append(violations, path)
 		}
 	}
-	bReports, bViol, bKnown := runBounded(o, sp, P, keys, known)
+	bReports, bViol, bKnown := runBounded(o, sp, P, boundedKeys, known)
 	violations = append(violations, bViol...)
 	knownHit = append(knownHit, bKnown...)
 	sort.Strings(undecided)
@@ -276,6 +284,9 @@ func runProperty(ctx *Ctx, o *Options, t0 time.Time) int {
 	}
 	for _, e := range ext {
 		ass = append(ass, "assumed contract (extern): "+e)
+	}
+	for _, e := range trustedRepo {
+		ass = append(ass, "repo function with a trusted (unverified) contract: "+e)
 	}
 	sort.Strings(ass[5:])
 	var inl []string
